@@ -362,13 +362,14 @@ func (c08) Run(c Case, env *Env) Result {
 			for k, v := range []interface{}{
 				&zoo.MapThenFloats{M: zoo.NamedMap{"k": 1}, A: []float32{1.5}, B: []float64{f, 0.1}, C: []float64{0.1, f, -f}, D: []float32{2.5, 0.25}},
 				&zoo.NamedScalars{C: zoo.Celsius(f), Cs: long},
+				&zoo.CaseFloats{Ph: 7.25, PH: float32(f), Vmax: f, VMax: -f / 3, Temp: 0.1},
 			} {
 				res.Evals++
 				res.NT = append(res.NT, Hash64(fmt.Sprintf("lists|%d|%d", j, k)))
 				cc := c
-				cc.Sub = 1000 + j*2 + k
+				cc.Sub = 1000 + j*3 + k
 				o := roundTrip(v)
-				feats := append(doubleFeatures(f), []string{"lists-after-typed-map", "long-list-of-named-float64"}[k])
+				feats := append(doubleFeatures(f), []string{"lists-after-typed-map", "long-list-of-named-float64", "case-variant-field-names"}[k])
 				switch {
 				case o.Panic != nil:
 					env.Viol(&res, Violation{Class: o.Panic.Class, Features: feats, Detail: o.Stage + " panic " + o.Panic.Msg, Case: cc})
